@@ -56,15 +56,23 @@ def rule_wire(prog, rep, R):
                 "change-of-variables wiring: inverse log-det added, forward log-det subtracted, the base density "
                 "evaluated at the inverse image, condition forwarded to both the bijection and the base "
                 "distribution, key consumed once, one bijection / base_dist pair", minimum=5)
-    owners = [prog.cls(TRANSFORMED)] + [c for c in prog.subclasses(TRANSFORMED)
-                                        if any(m in c.methods for m in WIRE)]
-    for c in owners:
+    # method resolution, not class bodies: a core may also reach a transformed family through a mixin or another
+    # base class placed before AbstractTransformed
+    base = prog.cls(TRANSFORMED)
+    for m, (args, src, what) in WIRE.items():
+        got = Interp(prog).eval_method(base, m, args)
+        want = eval_ref_method(prog, base, src, args)
+        compare(rep, R, method_site(prog, base, m), f"{base.qualname}.{m}", got, want, what)
+    for c in prog.subclasses(TRANSFORMED):
         for m, (args, src, what) in WIRE.items():
-            if c.qualname != TRANSFORMED and m not in c.methods:
+            r = prog.find_method(c, m)
+            if r is None or r[0].qualname == TRANSFORMED:
                 continue
+            owner = r[0]
             got = Interp(prog).eval_method(c, m, args)
             want = eval_ref_method(prog, c, src, args)
-            compare(rep, R, method_site(prog, c, m), f"{c.qualname}.{m}", got, want, what)
+            compare(rep, R, f"{owner.module.relpath}:{r[1].lineno}",
+                    f"{c.qualname}.{m} (resolved to {owner.name}.{m})", got, want, what)
     c = prog.cls(TRANSFORMED)
     got = Interp(prog).eval_method(c, "shape", [])
     compare(rep, R, method_site(prog, c, "shape"), "AbstractTransformed.shape", got,
